@@ -71,7 +71,7 @@ def _run_chunk(exe, lines, idx, label, per_case_timeout):
         path = os.path.join(WORK, "%s-%d-%d.cases" % (label, os.getpid(), idx))
         with open(path, "w") as f:
             f.write("\n".join(lines[start:]) + "\n")
-        budget = 20 + per_case_timeout * (n - start)
+        budget = 60 + per_case_timeout * (n - start)
         try:
             p = subprocess.run([exe, path], stdout=subprocess.PIPE, stderr=subprocess.DEVNULL,
                                timeout=budget)
@@ -90,11 +90,19 @@ def _run_chunk(exe, lines, idx, label, per_case_timeout):
         if got >= n - start and crashed is not None:
             results.extend(out[: n - start])
             break
-        # a case did not produce its line
         results.extend(out[:got])
-        results.append("HANG" if crashed is None else "CRASH")
-        start += got + 1
-        if rounds > 50:
+        if crashed is False:
+            # clean exit before the end: the harness stopped after too many abandoned (hung)
+            # worker threads; continue with a fresh process
+            start += got
+            if got == 0:
+                results.append("SKIPPED")
+                start += 1
+        else:
+            # a case did not produce its line
+            results.append("HANG" if crashed is None else "CRASH")
+            start += got + 1
+        if rounds > 200:
             results.extend(["SKIPPED"] * (n - start))
             break
     return results
